@@ -297,9 +297,28 @@ def worker_panics(ck, ctx, rule="worker-reports"):
     ck.ob(rule, "no-new-panic-on-worker-thread", not bad, "unwrap()/expect()/panic! in task.rs, process_posix.rs and depfile.rs appear only at the sites confirmed by reading (none handles command output): unexpected %s" % (bad or "none"), span="task::run_task")
 
 
+def cycle_error_reaches_exit(ck, ctx, rule="cycle-first"):
+    """the `dependency cycle` error raised while marking targets wanted is not dropped on the way out: every want_file /
+    want_every_file call of run::build and of Work::want_every_file is propagated with `?`"""
+    F = ctx.F
+    n = 0
+    for fn, callees in (("run::build", ("work::Work::want_file", "work::Work::want_every_file")), ("work::Work::want_every_file", ("work::Work::want_file",)), ("work::Work::want_file", ("work::BuildStates::want_file",))):
+        b = F.body(fn)
+        if b is None:
+            ck.ob("anchor", "fn " + fn, False, "anchor-missing: %s" % fn, nontrivial=False)
+            continue
+        for bb, t in b.calls():
+            if callee_of(t) in callees:
+                n += 1
+                ok = RL.try_of_call(ctx, b, bb) is not None or (not t["dest"]["p"] and t["dest"]["l"] == 0)
+                ck.ob(rule, "%s->%s#bb-order%d|propagated" % (fn, callee_of(t).split("::")[-1], n), ok, "%s propagates the Result of %s (a dependency cycle found there must end the invocation)" % (fn, callee_of(t)), span=t["loc"], fn=fn)
+    ck.floor("want_* call sites whose error must be propagated", n, 5)
+
+
 def worker_reports(ck, ctx):
     F = ctx.F
     worker_panics(ck, ctx)
+    cycle_error_reaches_exit(ck, ctx)
     clo = ck.need("closure task::Runner::start::{closure#0}", F.body("task::Runner::start::{closure#0}"))
     cfg = ctx.cfg(clo)
     R = ctx.res(clo)
